@@ -702,7 +702,16 @@ func (c *Ctx) divisorRule(rule string, fns []*ssa.Function) int {
 				d := stripConv(bo.Y)
 				same := func(x ssa.Value) bool {
 					x = stripConv(x)
-					return x == d || sameLoad(x, d)
+					if x == d || sameLoad(x, d) {
+						return true
+					}
+					// two len() calls of one collection are one quantity
+					if a, ok := lenArg(x); ok {
+						if b2, ok := lenArg(d); ok && (sameColl(a, b2) || sameFieldPathUnwritten(f, a, b2)) {
+							return true
+						}
+					}
+					return false
 				}
 				nonzero := false
 				for _, cf := range dominatingConds(b) {
@@ -793,6 +802,27 @@ func (c *Ctx) nonZeroAtCallers(v ssa.Value, depth int) bool {
 		}
 	}
 	return sites > 0
+}
+
+// sameFieldPathUnwritten: a and b are loads along one access path (same root, same field chain, at least one field),
+// and f itself stores into no field of that name (callees are not looked into: the guard and the division sit a few
+// lines apart in one function): the two loads read one quantity.
+func sameFieldPathUnwritten(f *ssa.Function, a, b ssa.Value) bool {
+	pa, pb := flow.PathOf(a), flow.PathOf(b)
+	if len(pa.Fields) == 0 || !pa.Equal(pb) {
+		return false
+	}
+	last := pa.Fields[len(pa.Fields)-1]
+	for _, blk := range f.Blocks {
+		for _, in := range blk.Instrs {
+			if st, ok := in.(*ssa.Store); ok {
+				if fa, ok := st.Addr.(*ssa.FieldAddr); ok && flow.FieldName(fa) == last {
+					return false
+				}
+			}
+		}
+	}
+	return true
 }
 
 // isUnsignedOrAny: v > k with k ≥ 0 excludes zero for signed and unsigned values alike.
